@@ -418,9 +418,10 @@ Proof. intros. apply NoDup_filter. assumption. Qed.
 
 Lemma set_diff_id : forall a k, ~ In k a -> set_diff a [k] = a.
 Proof.
-  intros a k H. unfold set_diff. induction a as [|x a IH]; simpl; [reflexivity|].
-  unfold memz; simpl. destruct (Z.eqb_spec x k) as [->|_]; [exfalso; apply H; left; reflexivity|].
-  simpl. rewrite IH; [reflexivity|]. intros Hin; apply H; right; exact Hin.
+  intros a k H. unfold set_diff. induction a as [|x a IH]; [reflexivity|]. cbn [filter].
+  assert (M : memz x [k] = false).
+  { apply memz_false_notin. intros [E|[]]. apply H. left. symmetry; exact E. }
+  rewrite M. cbn [negb]. rewrite IH; [reflexivity|]. intros Hin; apply H; right; exact Hin.
 Qed.
 
 Lemma row_at_length : forall i (d : kv), length (row_at i d) = length d.
@@ -447,10 +448,606 @@ Qed.
 
 Lemma dget_drop_id : forall c (d : cells), dget c (drop_id d) = if c =? id_col then None else dget c d.
 Proof.
-  intros c d; induction d as [|[k v] d IH]; simpl; [destruct (c =? id_col); reflexivity|].
-  destruct (Z.eqb_spec k id_col) as [->|Hk]; simpl.
-  - rewrite IH. destruct (Z.eqb_spec c id_col) as [->|Hc]; [reflexivity|].
-    destruct (dget c d); [reflexivity|]. destruct (Z.eqb_spec id_col c); [congruence|reflexivity].
-  - rewrite IH. destruct (Z.eqb_spec c id_col) as [->|Hc]; [|reflexivity].
-    destruct (Z.eqb_spec k id_col); [contradiction|reflexivity].
+  intros c d. unfold drop_id. generalize id_col as idc. intros idc.
+  induction d as [|[k v] d IH]; cbn [filter fst dget]; [destruct (c =? idc); reflexivity|].
+  destruct (Z.eqb_spec k idc) as [->|Hk]; cbn [negb dget].
+  - rewrite IH. destruct (Z.eqb_spec c idc) as [->|Hc]; [reflexivity|].
+    destruct (dget c d); [reflexivity|]. destruct (Z.eqb_spec idc c); [congruence|reflexivity].
+  - rewrite IH. destruct (Z.eqb_spec c idc) as [->|Hc]; [|reflexivity].
+    destruct (Z.eqb_spec k idc); [contradiction|reflexivity].
+Qed.
+
+Lemma keys_drop_id : forall (d : cells) k, In k (map fst (drop_id d)) <-> In k (map fst d) /\ k <> id_col.
+Proof.
+  intros d k. unfold drop_id. rewrite !in_map_iff. split.
+  - intros [p [E Hp]]. apply filter_In in Hp. destruct Hp as [Hp Hn]. apply negb_true_iff in Hn.
+    apply Z.eqb_neq in Hn. subst k. split; [exists p; auto|exact Hn].
+  - intros [[p [E Hp]] Hn]. exists p. split; [exact E|]. apply filter_In. split; [exact Hp|].
+    apply negb_true_iff. apply Z.eqb_neq. intros X. apply Hn. rewrite <- E. exact X.
+Qed.
+
+(* ================= one iteration of the loop ================= *)
+Section Step.
+Variables (e : env) (require col_values : kv).
+Hypothesis Hrq : wf_dict require.
+Hypothesis Hcv : wf_dict col_values.
+
+Definition add_keys_ := filter (fun p : col * list val => settable e (fst p)) require.
+Definition rak_ := map fst add_keys_.
+Definition ck_ := map fst col_values.
+Definition KA_ := set_union ck_ (set_diff rak_ [id_col]).
+Definition KU_ := set_diff ck_ [id_col].
+
+Lemma rak_nodup : NoDup rak_.
+Proof. unfold rak_, add_keys_. apply NoDup_map_filter. exact Hrq. Qed.
+Lemma KA_nodup : NoDup KA_.
+Proof. unfold KA_. apply set_union_nodup; [exact Hcv|apply set_diff_nodup; exact rak_nodup]. Qed.
+Lemma KU_nodup : NoDup KU_.
+Proof. unfold KU_. apply set_diff_nodup. exact Hcv. Qed.
+
+(* the dict `values` of a new record, as the code builds it, against the model's list *)
+Definition valuesM (i : nat) : cells := row_at i add_keys_ ++ row_at i col_values.
+Definition values0 (i : nat) : cells := dict_update (row_at i add_keys_) (row_at i col_values).
+
+Lemma values_facts : forall i,
+  dict_pop (values0 i) id_col = (dget id_col (valuesM i), drop_id (values0 i)) /\
+  NoDup (map fst (drop_id (values0 i))) /\
+  dget_eq (drop_id (values0 i)) (drop_id (valuesM i)) /\
+  (forall k, In k (map fst (drop_id (values0 i))) <-> (In k rak_ \/ In k ck_) /\ k <> id_col).
+Proof.
+  intros i. unfold values0, valuesM.
+  assert (NA : NoDup (map fst (row_at i add_keys_))) by (rewrite row_at_keys; exact rak_nodup).
+  destruct (dict_update_spec (row_at i col_values) (row_at i add_keys_) NA) as [N [G K]].
+  assert (GE : forall c, get c (dict_update (row_at i add_keys_) (row_at i col_values))
+                         = dget c (row_at i add_keys_ ++ row_at i col_values)).
+  { intros c. rewrite G, dget_app, (dget_get c _ NA). reflexivity. }
+  split; [|split; [|split]].
+  - unfold dict_pop. rewrite GE. reflexivity.
+  - unfold drop_id. apply NoDup_map_filter. exact N.
+  - intros c. rewrite !dget_drop_id. destruct (c =? id_col); [reflexivity|].
+    rewrite (dget_get c _ N). apply GE.
+  - intros k. rewrite keys_drop_id, K, !row_at_keys. reflexivity.
+Qed.
+
+Lemma add_cm_step : forall i (acm : kv), map fst acm = KA_ ->
+  g_cm_cells (drop_id (values0 i)) acm = Ok (map (grow (drop_id (values0 i))) acm).
+Proof.
+  intros i acm HK. destruct (values_facts i) as [_ [N [_ K]]].
+  apply g_cm_cells_spec; [exact N | rewrite HK; exact KA_nodup |].
+  intros k Hk. rewrite HK. apply K in Hk. destruct Hk as [[Hk|Hk] Hn]; unfold KA_; apply set_union_In.
+  - right. apply set_diff_In. split; [exact Hk|]. intros [E|[]]. congruence.
+  - left. exact Hk.
+Qed.
+
+Lemma g_add_part_spec : forall add i records aids acm nidx (k : list (option val) * kv * list nat -> res S6),
+  map fst acm = KA_ ->
+  g_add_part require col_values add rak_ i records aids acm nidx k
+  = if isnil records && add
+    then k (aids ++ [dget id_col (valuesM i)], map (grow (drop_id (values0 i))) acm, nidx ++ [i])
+    else k (aids, acm, nidx).
+Proof.
+  intros add i records aids acm nidx k HK. unfold g_add_part. rewrite negb_involutive.
+  destruct (isnil records && add); [|reflexivity].
+  unfold rak_. rewrite (map_m_lookup i require add_keys_ Hrq).
+  2:{ intros p Hp. unfold add_keys_ in Hp. apply filter_In in Hp. tauto. }
+  cbn [rbind]. fold (values0 i). destruct (values_facts i) as [P _]. rewrite P.
+  rewrite (add_cm_step i acm HK). reflexivity.
+Qed.
+
+End Step.
+
+(* ---------- appending the same row several times (one update entry per matched record) ---------- *)
+Fixpoint grow_n (vals : cells) (n : nat) (m : kv) : kv :=
+  match n with O => m | S n' => grow_n vals n' (map (grow vals) m) end.
+
+Definition getd (vals : cells) (k : col) : val := match get k vals with Some v => v | None => VNone end.
+
+Lemma assoc_canon : forall vals : cells, NoDup (map fst vals) ->
+  map (fun k => (k, getd vals k)) (map fst vals) = vals.
+Proof.
+  induction vals as [|[k v] vals IH]; intros H; [reflexivity|]. simpl in H. inversion H; subst.
+  cbn [map fst]. unfold getd at 1. cbn [get]. rewrite Z.eqb_refl. f_equal.
+  transitivity (map (fun k0 => (k0, getd vals k0)) (map fst vals)); [|apply IH; exact H3].
+  apply map_ext_in. intros k' Hk'. unfold getd. cbn [get].
+  destruct (Z.eqb_spec k k') as [->|_]; [contradiction|reflexivity].
+Qed.
+
+Lemma grow_new_row_exact : forall vals m n, cm_rect m n -> NoDup (map fst vals) -> map fst m = map fst vals ->
+  row_at n (map (grow vals) m) = vals.
+Proof.
+  intros vals m n Hr Hnd HK.
+  assert (Hrow : row_at n (map (grow vals) m) = map (fun p => (fst p, getd vals (fst p))) m).
+  { unfold row_at. rewrite map_map. apply map_ext_in. intros p Hp.
+    unfold cm_rect in Hr. rewrite Forall_forall in Hr. specialize (Hr p Hp). unfold grow, getd.
+    assert (Hin : In (fst p) (map fst vals)) by (rewrite <- HK; apply in_map; exact Hp).
+    destruct (get_in (fst p) vals Hin) as [v ->]. cbn [fst snd].
+    rewrite app_nth2 by lia. rewrite Hr, Nat.sub_diag. reflexivity. }
+  rewrite Hrow. transitivity (map (fun k => (k, getd vals k)) (map fst vals)); [|apply assoc_canon; exact Hnd].
+  rewrite <- HK, map_map. reflexivity.
+Qed.
+
+Lemma cm_rows_grow : forall vals m n, cm_rect m n -> NoDup (map fst vals) -> map fst m = map fst vals ->
+  cm_rows (map (grow vals) m) (S n) = cm_rows m n ++ [vals].
+Proof.
+  intros vals m n Hr Hnd HK. unfold cm_rows. rewrite seq_S, map_app. cbn [map Nat.add]. f_equal.
+  - apply map_ext_in. intros j Hj. apply in_seq in Hj. apply (grow_old_rows vals m n j Hr). lia.
+  - f_equal. apply grow_new_row_exact; assumption.
+Qed.
+
+Lemma grow_n_spec : forall vals k m n, cm_rect m n -> NoDup (map fst vals) -> map fst m = map fst vals ->
+  map fst (grow_n vals k m) = map fst m /\ cm_rect (grow_n vals k m) (n + k) /\
+  cm_rows (grow_n vals k m) (n + k) = cm_rows m n ++ repeat vals k.
+Proof.
+  intros vals k; induction k as [|k IH]; intros m n Hr Hnd HK; cbn [grow_n repeat].
+  - rewrite Nat.add_0_r, app_nil_r. auto.
+  - assert (Hr1 : cm_rect (map (grow vals) m) (S n)).
+    { apply grow_rect; [exact Hr|]. intros c Hc. rewrite <- HK. exact Hc. }
+    assert (HK1 : map fst (map (grow vals) m) = map fst vals) by (rewrite grow_keys; exact HK).
+    destruct (IH _ (S n) Hr1 Hnd HK1) as [K [R C]]. rewrite Nat.add_succ_r. cbn [Nat.add] in R, C.
+    split; [rewrite K; apply grow_keys|]. split; [exact R|].
+    rewrite C, (cm_rows_grow vals m n Hr Hnd HK), <- app_assoc. reflexivity.
+Qed.
+
+Section Step2.
+Variables (col_values : kv).
+Hypothesis Hcv : wf_dict col_values.
+
+Definition upd_loop (i : nat) (recs : list Z) (uids : list Z) (ucm : kv) : res (list Z * kv) :=
+  for_m recs (uids, ucm) (fun record '(uids, ucm) =>
+    rbind (g_cm_row i col_values ucm) (fun ucm => Ok (uids ++ [record], ucm))).
+
+Lemma upd_loop_ok : forall i recs uids ucm, ~ In id_col (ck_ col_values) -> map fst ucm = KU_ col_values ->
+  upd_loop i recs uids ucm = Ok (uids ++ recs, grow_n (row_at i col_values) (length recs) ucm).
+Proof.
+  intros i recs. unfold upd_loop. induction recs as [|r recs IH]; intros uids ucm Hid HK.
+  - simpl. rewrite app_nil_r. reflexivity.
+  - cbn [for_m length grow_n]. rewrite g_cm_row_cells.
+    assert (KUck : KU_ col_values = map fst col_values) by (unfold KU_; apply set_diff_id; exact Hid).
+    rewrite g_cm_cells_spec.
+    + cbn [rbind]. rewrite IH; [rewrite <- app_assoc; reflexivity|exact Hid|rewrite grow_keys; exact HK].
+    + rewrite row_at_keys. exact Hcv.
+    + rewrite HK, KUck. exact Hcv.
+    + intros k Hk. rewrite row_at_keys in Hk. rewrite HK, KUck. exact Hk.
+Qed.
+
+Lemma upd_loop_fail : forall i r recs uids ucm, In id_col (ck_ col_values) -> map fst ucm = KU_ col_values ->
+  upd_loop i (r :: recs) uids ucm = Err EEnv.
+Proof.
+  intros i r recs uids ucm Hid HK. unfold upd_loop. cbn [for_m]. rewrite g_cm_row_cells.
+  rewrite (g_cm_cells_fail (row_at i col_values) ucm id_col); [reflexivity| | |].
+  - rewrite HK. apply set_diff_nodup. exact Hcv.
+  - rewrite row_at_keys. exact Hid.
+  - rewrite HK. unfold KU_. intros H. apply set_diff_In in H. destruct H as [_ H]. apply H. left; reflexivity.
+Qed.
+
+End Step2.
+
+(* ================= the loop invariant ================= *)
+Section Sim.
+Variables (e : env) (t : table) (o : options) (require col_values : kv).
+Hypothesis Hrq : wf_dict require.
+Hypothesis Hcv : wf_dict col_values.
+Hypothesis Hbad : o_on_many o <> OnBad.
+
+Let ak := add_keys_ e require.
+Let rak := rak_ e require.
+Let ck := ck_ col_values.
+Let KA := KA_ e require col_values.
+Let KU := KU_ col_values.
+
+Definition Rel (s : S6) (st : lstate) : Prop :=
+  let '(aids, acm, uids, ucm, result, nidx) := s in
+  aids = map fst (s_adds st) /\ map fst acm = KA /\
+  (~ In id_col ck -> cm_rect acm (length (s_adds st)) /\
+                     Forall2 dget_eq (cm_rows acm (length (s_adds st))) (map snd (s_adds st))) /\
+  uids = map fst (s_upds st) /\ map fst ucm = KU /\ cm_rect ucm (length (s_upds st)) /\
+  cm_rows ucm (length (s_upds st)) = map snd (s_upds st) /\
+  (In id_col ck -> s_upds st = []) /\
+  result = {| r_record_ids := s_rec_ids st; r_add_ids := []; r_update_ids := s_upd_ids st |} /\
+  nidx = s_new_idx st /\ length (s_new_idx st) = length (s_adds st).
+
+Definition BadSt (st : lstate) : Prop := In id_col ck /\ s_upds st <> [].
+
+Lemma KA_values_keys : forall i k, ~ In id_col ck ->
+  (In k KA <-> In k (map fst (drop_id (values0 e require col_values i)))).
+Proof.
+  intros i k Hid. destruct (values_facts e require col_values Hrq i) as [_ [_ [_ K]]]. rewrite K.
+  unfold KA, KA_. rewrite set_union_In, set_diff_In. fold ck. fold rak. split.
+  - intros [H|[H Hn]].
+    + split; [right; exact H|]. intros E. subst k. contradiction.
+    + split; [left; exact H|]. intros E. apply Hn. left. symmetry; exact E.
+  - intros [[H|H] Hn]; [right|left; exact H]. split; [exact H|]. intros [E|[]]. congruence.
+Qed.
+
+Lemma Rel_add : forall i aids acm uids ucm result nidx st,
+  Rel (aids, acm, uids, ucm, result, nidx) st ->
+  Rel (aids ++ [dget id_col (valuesM e require col_values i)],
+       map (grow (drop_id (values0 e require col_values i))) acm, uids, ucm, result, nidx ++ [i])
+      {| s_adds := s_adds st ++ [(dget id_col (valuesM e require col_values i), drop_id (valuesM e require col_values i))];
+         s_new_idx := s_new_idx st ++ [i];
+         s_upds := s_upds st; s_rec_ids := s_rec_ids st; s_upd_ids := s_upd_ids st |}.
+Proof.
+  intros i aids acm uids ucm result nidx st [Ha [Hk [Hrows [Hu [Hku [Hur [Hurows [Hidu [Hres [Hn Hlen]]]]]]]]]].
+  unfold Rel. cbn [s_adds s_new_idx s_upds s_rec_ids s_upd_ids].
+  destruct (values_facts e require col_values Hrq i) as [_ [Nv [Deq _]]].
+  repeat split; auto.
+  - rewrite map_app, Ha. reflexivity.
+  - rewrite grow_keys. exact Hk.
+  - destruct (Hrows H) as [Hr _]. rewrite app_length, Nat.add_1_r. apply grow_rect; [exact Hr|].
+    intros k Hkin. rewrite Hk in Hkin. apply (KA_values_keys i k H). exact Hkin.
+  - destruct (Hrows H) as [Hr HF]. rewrite app_length, Nat.add_1_r, map_app. unfold cm_rows.
+    rewrite seq_S, map_app. cbn [map Nat.add]. apply Forall2_app.
+    + replace (map (fun j => row_at j (map (grow (drop_id (values0 e require col_values i))) acm))
+                   (seq 0 (length (s_adds st)))) with (cm_rows acm (length (s_adds st))); [exact HF|].
+      unfold cm_rows. apply map_ext_in. intros j Hj. apply in_seq in Hj. symmetry.
+      apply (grow_old_rows _ acm (length (s_adds st)) j Hr). lia.
+    + constructor; [|constructor]. intros c.
+      rewrite (grow_new_row _ acm (length (s_adds st)) c Hr).
+      * rewrite <- (dget_get c _ Nv). apply Deq.
+      * rewrite Hk. apply (KA_nodup e require col_values Hrq Hcv).
+      * intros k. rewrite Hk. apply KA_values_keys. exact H.
+  - rewrite Hn. reflexivity.
+  - rewrite !app_length, Hlen. reflexivity.
+Qed.
+
+Lemma map_const_repeat {A B} : forall (l : list A) (b : B), map (fun _ => b) l = repeat b (length l).
+Proof. induction l as [|x l IH]; intros b; simpl; [reflexivity|]. rewrite IH. reflexivity. Qed.
+
+Lemma Rel_upd : forall i recs aids acm uids ucm result nidx st, ~ In id_col ck ->
+  Rel (aids, acm, uids, ucm, result, nidx) st ->
+  Rel (aids, acm, uids ++ recs, grow_n (row_at i col_values) (length recs) ucm,
+       ret_set_update_ids (ret_set_record_ids result (set_nth i recs (r_record_ids result)))
+         (r_update_ids (ret_set_record_ids result (set_nth i recs (r_record_ids result))) ++ [recs]), nidx)
+      {| s_adds := s_adds st; s_new_idx := s_new_idx st;
+         s_upds := s_upds st ++ map (fun r => (r, row_at i col_values)) recs;
+         s_rec_ids := set_nth i recs (s_rec_ids st);
+         s_upd_ids := s_upd_ids st ++ [recs] |}.
+Proof.
+  intros i recs aids acm uids ucm result nidx st Hid [Ha [Hk [Hrows [Hu [Hku [Hur [Hurows [Hidu [Hres [Hn Hlen]]]]]]]]]].
+  unfold Rel. cbn [s_adds s_new_idx s_upds s_rec_ids s_upd_ids].
+  assert (KUck : KU = map fst col_values) by (unfold KU, KU_; apply set_diff_id; exact Hid).
+  destruct (grow_n_spec (row_at i col_values) (length recs) ucm (length (s_upds st)) Hur) as [K [Rc C]].
+  { rewrite row_at_keys. exact Hcv. }
+  { rewrite row_at_keys, Hku, KUck. reflexivity. }
+  assert (Hl : length (s_upds st ++ map (fun r => (r, row_at i col_values)) recs) = (length (s_upds st) + length recs)%nat)
+    by (rewrite app_length, map_length; reflexivity).
+  refine (conj Ha (conj Hk (conj Hrows (conj _ (conj _ (conj _ (conj _ (conj _ (conj _ (conj Hn Hlen)))))))))).
+  - rewrite map_app, map_map, Hu. cbn [fst]. rewrite map_id. reflexivity.
+  - rewrite K. exact Hku.
+  - rewrite Hl. exact Rc.
+  - rewrite Hl, C, Hurows, map_app, map_map. cbn [snd]. rewrite map_const_repeat. reflexivity.
+  - intros H. contradiction.
+  - rewrite Hres. reflexivity.
+Qed.
+
+
+Lemma loop_body_eq : forall st i,
+  loop_body e t o require ak col_values st i
+  = step e st i (mk_row require col_values i) (ref_outcome e t o (row_at i require)).
+Proof. intros. apply loop_body_step. exact Hbad. Qed.
+
+Lemma BadSt_mono : forall st i, BadSt st -> BadSt (loop_body e t o require ak col_values st i).
+Proof.
+  intros st i [Hid Hne]. split; [exact Hid|]. rewrite loop_body_eq. unfold step.
+  destruct (ref_outcome e t o (row_at i require)); cbn [s_upds]; try exact Hne.
+  intros E. apply app_eq_nil in E. destruct E as [E _]. contradiction.
+Qed.
+
+Lemma add_values_valuesM : forall i,
+  add_values e (row_at i require, row_at i col_values) = valuesM e require col_values i.
+Proof.
+  intros i. unfold add_values, valuesM, add_keys_. cbn [fst snd].
+  rewrite (row_at_filter (settable e) i require). reflexivity.
+Qed.
+
+Ltac fold_upd_loop i :=
+  match goal with |- context [for_m ?l (?u, ?m) ?b] =>
+    change (for_m l (u, m) b) with (upd_loop col_values i l u m) end.
+
+Lemma body_step : forall i s st, Rel s st ->
+  (exists s2, g_body (oenv_of e) require col_values (o_update o) (o_add o) (o_on_many o) rak t i s = Ok s2 /\
+              Rel s2 (loop_body e t o require ak col_values st i)) \/
+  (g_body (oenv_of e) require col_values (o_update o) (o_add o) (o_on_many o) rak t i s = Err EEnv /\
+   BadSt (loop_body e t o require ak col_values st i)).
+Proof.
+  intros i [[[[[aids acm] uids] ucm] result] nidx] st HR.
+  pose proof HR as [Ha [Hk [Hrows [Hu [Hku [Hur [Hurows [Hidu [Hres [Hn Hlen]]]]]]]]]].
+  unfold g_body. cbn [oe_lookup oenv_of].
+  rewrite (g_add_part_spec e require col_values Hrq Hcv (o_add o) i _ aids acm nidx _ Hk).
+  rewrite loop_body_eq. unfold ref_outcome, step, mk_row. cbn [fst snd].
+  assert (Hupd : forall recs aids' acm' nidx' st', recs <> [] ->
+            Rel (aids', acm', uids, ucm, result, nidx') st' ->
+            s_upds st' = s_upds st ->
+            let k := fun '(uids, ucm, result, records) => Ok (aids', acm', uids, ucm, result, nidx') : res S6 in
+            let st2 := {| s_adds := s_adds st'; s_new_idx := s_new_idx st';
+                          s_upds := s_upds st' ++ map (fun x => (x, row_at i col_values)) recs;
+                          s_rec_ids := set_nth i recs (s_rec_ids st'); s_upd_ids := s_upd_ids st' ++ [recs] |} in
+            (exists s2,
+               rbind (upd_loop col_values i recs uids ucm)
+                 (fun '(uids, ucm) =>
+                    k (uids, ucm,
+                       ret_set_update_ids (ret_set_record_ids result (set_nth i (map (fun r : Z => r) recs) (r_record_ids result)))
+                         (r_update_ids (ret_set_record_ids result (set_nth i (map (fun r : Z => r) recs) (r_record_ids result)))
+                          ++ [map (fun r : Z => r) recs]), recs)) = Ok s2 /\ Rel s2 st2) \/
+            (rbind (upd_loop col_values i recs uids ucm)
+                 (fun '(uids, ucm) =>
+                    k (uids, ucm,
+                       ret_set_update_ids (ret_set_record_ids result (set_nth i (map (fun r : Z => r) recs) (r_record_ids result)))
+                         (r_update_ids (ret_set_record_ids result (set_nth i (map (fun r : Z => r) recs) (r_record_ids result)))
+                          ++ [map (fun r : Z => r) recs]), recs)) = Err EEnv /\ BadSt st2)).
+  { intros recs aids' acm' nidx' st' Hne HR' Hsame. cbn zeta.
+    destruct (in_dec Z.eq_dec id_col ck) as [Hid|Hid].
+    - right. destruct recs as [|r recs]; [contradiction|].
+      rewrite (upd_loop_fail col_values Hcv i r recs uids ucm Hid Hku). split; [reflexivity|].
+      split; [exact Hid|]. cbn [s_upds]. intros E. apply app_eq_nil in E. destruct E as [_ E]. discriminate E.
+    - left. rewrite (upd_loop_ok col_values Hcv i recs uids ucm Hid Hku). cbn [rbind]. rewrite map_id.
+      eexists. split; [reflexivity|]. apply (Rel_upd i recs _ _ _ _ _ _ st' Hid HR'). }
+  destruct (lookup e t (row_at i require)) as [|r [|r' rest]] eqn:L; cbn [isnil andb].
+  - (* no match *)
+    destruct (o_add o) eqn:Ad; cbn [andb]; unfold g_update_part; cbn [isnil negb andb].
+    + left. eexists. split; [reflexivity|]. rewrite add_values_valuesM.
+      apply (Rel_add i aids acm uids ucm result nidx st HR).
+    + left. eexists. split; [reflexivity|]. exact HR.
+  - (* one match *)
+    unfold g_update_part. cbn [isnil negb andb length Nat.ltb Nat.leb].
+    destruct (o_update o) eqn:Up.
+    + fold_upd_loop i. apply (Hupd [r] aids acm nidx st); [discriminate|exact HR|reflexivity].
+    + left. eexists. split; [reflexivity|]. exact HR.
+  - (* several matches *)
+    unfold g_update_part. cbn [isnil negb andb length Nat.ltb Nat.leb].
+    destruct (o_update o) eqn:Up; [|left; eexists; split; [reflexivity|exact HR]].
+    destruct (o_on_many o) eqn:Om; cbn [on_many_eqb firstn]; try contradiction.
+    + fold_upd_loop i. apply (Hupd [r] aids acm nidx st); [discriminate|exact HR|reflexivity].
+    + left. eexists. split; [reflexivity|]. exact HR.
+    + fold_upd_loop i. apply (Hupd (r :: r' :: rest) aids acm nidx st); [discriminate|exact HR|reflexivity].
+Qed.
+
+End Sim.
+
+(* ================= after the loop ================= *)
+Lemma combine_fst {A B} : forall (l : list A) (m : list B), length l = length m -> map fst (combine l m) = l.
+Proof. induction l as [|x l IH]; intros [|y m] H; simpl in *; try discriminate; [reflexivity|]. f_equal. apply IH. lia. Qed.
+Lemma combine_snd {A B} : forall (l : list A) (m : list B), length l = length m -> map snd (combine l m) = m.
+Proof. induction l as [|x l IH]; intros [|y m] H; simpl in *; try discriminate; [reflexivity|]. f_equal. apply IH. lia. Qed.
+Lemma combine_fst_snd {A B} : forall l : list (A * B), combine (map fst l) (map snd l) = l.
+Proof. induction l as [|[a b] l IH]; simpl; [reflexivity|]. rewrite IH. reflexivity. Qed.
+
+Lemma new_cells_ext : forall e a b, dget_eq a b -> new_cells e a = new_cells e b.
+Proof. intros e a b H. unfold new_cells. apply map_ext. intros ci. rewrite (H (c_id ci)). reflexivity. Qed.
+
+Lemma bulk_add_ext : forall e t (a1 a2 : list add_req), map fst a1 = map fst a2 ->
+  Forall2 dget_eq (map snd a1) (map snd a2) -> bulk_add e t a1 = bulk_add e t a2.
+Proof.
+  intros e t a1 a2 Hf Hs. unfold bulk_add. rewrite Hf.
+  match goal with |- context [map ?f a1] => assert (E : map f a1 = map f a2) end.
+  { clear Hf. revert a2 Hs. induction a1 as [|x a1 IH]; intros [|y a2] Hs; simpl in Hs; inversion Hs; subst;
+      [reflexivity|]. simpl. rewrite (new_cells_ext e (snd x) (snd y)) by assumption. f_equal. apply IH. assumption. }
+  rewrite E. reflexivity.
+Qed.
+
+Lemma bulk_add_length : forall e t adds t1 ids, bulk_add e t adds = Ok (t1, ids) -> length ids = length adds.
+Proof.
+  intros e t adds t1 ids. unfold bulk_add, alloc.
+  destruct (existsb is_bad (map fst adds)); [discriminate|].
+  destruct (validate [] (map fst adds)); [|discriminate].
+  destruct (existsb _ _); [discriminate|]. intros H. inversion H; subst. rewrite fill_length. apply map_length.
+Qed.
+
+Lemma g_fill_from : forall (nidx : list nat) (new_ids pre : list Z) (result : retval),
+  length nidx = length new_ids ->
+  for_m (enumerate_from (length pre) nidx) result (fun ix_ result =>
+    let result := ret_set_record_ids result (set_nth (snd ix_) [nth (fst ix_) (pre ++ new_ids) 0] (r_record_ids result)) in
+    Ok (ret_set_add_ids result (r_add_ids result ++ [nth (fst ix_) (pre ++ new_ids) 0])))
+  = Ok {| r_record_ids := fold_left (fun acc (p : nat * Z) => set_nth (fst p) [snd p] acc) (combine nidx new_ids)
+                                    (r_record_ids result);
+          r_add_ids := r_add_ids result ++ new_ids;
+          r_update_ids := r_update_ids result |}.
+Proof.
+  induction nidx as [|x nidx IH]; intros [|y new_ids] pre result Hl; simpl in Hl; try discriminate.
+  - simpl. rewrite app_nil_r. destruct result; reflexivity.
+  - cbn [enumerate_from for_m fst snd combine fold_left].
+    rewrite app_nth2 by lia. rewrite Nat.sub_diag. cbn [nth].
+    replace (pre ++ y :: new_ids) with ((pre ++ [y]) ++ new_ids) by (rewrite <- app_assoc; reflexivity).
+    replace (S (length pre)) with (length (pre ++ [y])) by (rewrite app_length; simpl; lia).
+    rewrite IH by lia. cbn [ret_set_add_ids ret_set_record_ids r_record_ids r_add_ids r_update_ids].
+    rewrite <- app_assoc. reflexivity.
+Qed.
+
+Lemma g_fill_spec : forall nidx new_ids result, length nidx = length new_ids ->
+  g_fill nidx new_ids result
+  = Ok {| r_record_ids := fold_left (fun acc (p : nat * Z) => set_nth (fst p) [snd p] acc) (combine nidx new_ids)
+                                    (r_record_ids result);
+          r_add_ids := r_add_ids result ++ new_ids;
+          r_update_ids := r_update_ids result |}.
+Proof. intros. unfold g_fill, py_enumerate. apply (g_fill_from nidx new_ids [] result H). Qed.
+
+Lemma forallb_In_ext {A} (p : A -> bool) : forall l m, (forall x, In x l <-> In x m) -> forallb p l = forallb p m.
+Proof.
+  intros l m H. apply eq_true_iff_eq. rewrite !forallb_forall. split; intros G x Hx; apply G; apply H; exact Hx.
+Qed.
+
+Lemma forallb_map_fst {A} : forall (p : col -> bool) (d : list (col * A)),
+  forallb p (map fst d) = forallb (fun q => p (fst q)) d.
+Proof. intros p d; induction d as [|q d IH]; simpl; [reflexivity|]. rewrite IH. reflexivity. Qed.
+
+Section Final.
+Variables (e : env) (t : table) (o : options) (require col_values : kv).
+Hypothesis Hrq : wf_dict require.
+Hypothesis Hcv : wf_dict col_values.
+
+Let ck := ck_ col_values.
+Let W := forallb (fun p : col * list val => writable e (fst p)) col_values.
+
+(* the model after its loop *)
+Definition model_finish (st : lstate) : res (table * retval) :=
+  if (negb (isnil (s_adds st)) || negb (isnil (s_upds st))) && negb W then Err EEnv else
+  match (if isnil (s_adds st) then Ok (t, []) else bulk_add e t (s_adds st)) with
+  | Err x => Err x
+  | Ok (t1, new_ids) =>
+      Ok (if isnil (s_upds st) then t1 else bulk_update e t1 (s_upds st),
+          {| r_record_ids := fold_left (fun acc (p : nat * Z) => set_nth (fst p) [snd p] acc)
+                                       (combine (s_new_idx st) new_ids) (s_rec_ids st);
+             r_add_ids := new_ids; r_update_ids := s_upd_ids st |})
+  end.
+
+Lemma W_ck : forallb (writable e) ck = W.
+Proof. unfold W, ck, ck_. apply forallb_map_fst. Qed.
+
+Lemma writable_id : writable e id_col = false.
+Proof. unfold writable. rewrite Z.eqb_refl. reflexivity. Qed.
+
+Lemma W_no_id : W = true -> ~ In id_col ck.
+Proof.
+  intros HW Hin. rewrite <- W_ck in HW. rewrite forallb_forall in HW. specialize (HW _ Hin).
+  rewrite writable_id in HW. discriminate.
+Qed.
+
+Lemma KA_writable : forallb (writable e) (KA_ e require col_values) = W.
+Proof.
+  rewrite <- W_ck. apply eq_true_iff_eq. rewrite !forallb_forall. split; intros G k Hk.
+  - apply G. unfold KA_. apply set_union_In. left. exact Hk.
+  - unfold KA_ in Hk. apply set_union_In in Hk. destruct Hk as [Hk|Hk]; [apply G; exact Hk|].
+    apply set_diff_In in Hk. destruct Hk as [Hk Hn]. unfold rak_, add_keys_ in Hk.
+    apply in_map_iff in Hk. destruct Hk as [p [E Hp]]. apply filter_In in Hp. destruct Hp as [_ Hs].
+    subst k. unfold settable in Hs. unfold writable.
+    destruct (Z.eqb_spec (fst p) id_col) as [E|_]; [exfalso; apply Hn; left; symmetry; exact E|]. exact Hs.
+Qed.
+
+Lemma finish_eq : forall s st, Rel e require col_values s st ->
+  g_finish (oenv_of e) t s = model_finish st.
+Proof.
+  intros [[[[[aids acm] uids] ucm] result] nidx] st [Ha [Hk [Hrows [Hu [Hku [Hur [Hurows [Hidu [Hres [Hn Hlen]]]]]]]]]].
+  unfold g_finish, model_finish. cbn [oe_bulk_add oe_bulk_update oenv_of].
+  rewrite Hk, Hku, KA_writable.
+  assert (Ea : isnil aids = isnil (s_adds st)) by (rewrite Ha; destruct (s_adds st); reflexivity).
+  assert (Eu : isnil uids = isnil (s_upds st)) by (rewrite Hu; destruct (s_upds st); reflexivity).
+  rewrite Ea, Eu.
+  destruct W eqn:HW; cbn [negb andb].
+  - (* all value columns accept data *)
+    rewrite andb_false_r.
+    pose proof (W_no_id HW) as Hid. destruct (Hrows Hid) as [Hr HF].
+    assert (KUw : forallb (writable e) (KU_ col_values) = true).
+    { unfold KU_. rewrite (set_diff_id (ck_ col_values) id_col Hid). fold ck. rewrite W_ck. exact HW. }
+    rewrite KUw.
+    assert (Eupd : forall t1, bulk_update e t1 (combine uids (cm_rows ucm (length uids))) = bulk_update e t1 (s_upds st)).
+    { intros t1. f_equal.
+      assert (L : length uids = length (s_upds st)) by (rewrite Hu; apply map_length).
+      rewrite L. etransitivity; [|apply combine_fst_snd]. f_equal; [exact Hu|exact Hurows]. }
+    destruct (s_adds st) as [|a0 adds] eqn:Ads; cbn [isnil negb].
+    + (* nothing to add *)
+      destruct (s_new_idx st) as [|? ?]; [|discriminate Hlen]. cbn [combine fold_left].
+      destruct (isnil (s_upds st)); cbn [negb rbind]; rewrite Hres; [reflexivity|]. rewrite Eupd. reflexivity.
+    + rewrite <- Ads in *. 
+      assert (Eadd : bulk_add e t (combine aids (cm_rows acm (length aids))) = bulk_add e t (s_adds st)).
+      { apply bulk_add_ext.
+        - rewrite combine_fst; [exact Ha|]. unfold cm_rows. rewrite map_length, seq_length. reflexivity.
+        - rewrite combine_snd by (unfold cm_rows; rewrite map_length, seq_length; reflexivity).
+          rewrite Ha, map_length. exact HF. }
+      rewrite Eadd. destruct (bulk_add e t (s_adds st)) as [[t1 new_ids]|x] eqn:BA; [|reflexivity]. cbn [rbind].
+      rewrite g_fill_spec by (rewrite Hn, Hlen; symmetry; apply (bulk_add_length e t _ t1 new_ids BA)).
+      cbn [rbind]. rewrite Hres, Hn. cbn [r_record_ids r_add_ids r_update_ids app].
+      destruct (isnil (s_upds st)); cbn [negb rbind]; [reflexivity|]. rewrite Eupd. reflexivity.
+  - (* some value column does not accept data *)
+    rewrite andb_true_r.
+    destruct (s_adds st) as [|a0 adds] eqn:Ads; cbn [isnil negb orb rbind]; [|reflexivity].
+    destruct (s_upds st) as [|u0 upds] eqn:Ups; cbn [isnil negb].
+    + destruct (s_new_idx st) as [|? ?]; [|discriminate Hlen]. rewrite Hres. reflexivity.
+    + assert (Hid : ~ In id_col ck) by (intros H; specialize (Hidu H); discriminate Hidu).
+      unfold KU_. rewrite (set_diff_id (ck_ col_values) id_col Hid). fold ck. rewrite W_ck, HW. reflexivity.
+Qed.
+
+End Final.
+
+(* ================= Step 2: the mirror over the modelled environment is the model ================= *)
+Lemma match_om {A} : forall (om : on_many) (a b : A),
+  (match om with OnBad => a | _ => b end)
+  = if negb (existsb (on_many_eqb om) [OnFirst; OnNone; OnAll]) then a else b.
+Proof. intros [] a b; reflexivity. Qed.
+
+Lemma cm_new_keys : forall keys, map fst (cm_new keys) = keys.
+Proof. intros. unfold cm_new. rewrite map_map. cbn [fst]. apply map_id. Qed.
+
+Lemma cm_new_rect : forall keys, cm_rect (cm_new keys) 0.
+Proof. intros. unfold cm_rect, cm_new. apply Forall_forall. intros p H. apply in_map_iff in H. destruct H as [k [<- _]]. reflexivity. Qed.
+
+Theorem mirror_is_model : forall e t require col_values o,
+  wf_dict require -> wf_dict col_values ->
+  cm_upsert (oenv_of e) t require col_values o = upsert e t require col_values o.
+Proof.
+  intros e t require col_values o Hrq Hcv. unfold cm_upsert, upsert. rewrite match_om.
+  destruct (negb (existsb (on_many_eqb (o_on_many o)) [OnFirst; OnNone; OnAll])) eqn:C; [reflexivity|].
+  assert (Hbad : o_on_many o <> OnBad) by (intros E; rewrite E in C; discriminate C).
+  rewrite !negb_involutive.
+  destruct (isnil require && negb (o_allow_empty o)); [reflexivity|].
+  destruct (isnil require && isnil col_values); [reflexivity|].
+  destruct (dedup Nat.eqb (map (@length val) (all_lists require col_values))) as [|len [|? ?]]; try reflexivity.
+  destruct (negb (isnil require) && _); [reflexivity|].
+  rewrite filter_settable. destruct (forallb (fun p => known e (fst p)) require); cbn [negb rbind]; [|reflexivity].
+  fold (add_keys_ e require). fold (rak_ e require).
+  unfold py_set. rewrite (dedup_nodup _ (rak_nodup e require Hrq)), (dedup_nodup _ Hcv).
+  fold (ck_ col_values). fold (KA_ e require col_values). fold (KU_ col_values).
+  unfold upsert_core. cbn zeta. fold (add_keys_ e require).
+  pose (st0 := {| s_adds := []; s_new_idx := []; s_upds := []; s_rec_ids := repeat [] len; s_upd_ids := [] |}).
+  pose (s0 := ([], cm_new (KA_ e require col_values), [], cm_new (KU_ col_values),
+              ret_set_record_ids empty_ret (repeat [] len), []) : S6).
+  assert (R0 : Rel e require col_values s0 st0).
+  { unfold Rel, s0, st0. cbn [s_adds s_new_idx s_upds s_rec_ids s_upd_ids map length].
+    rewrite !cm_new_keys.
+    refine (conj eq_refl (conj eq_refl (conj _ (conj eq_refl (conj eq_refl (conj (cm_new_rect _) (conj eq_refl
+             (conj (fun _ => eq_refl) (conj eq_refl (conj eq_refl eq_refl)))))))))).
+    intros _. split; [apply cm_new_rect|constructor]. }
+  destruct (for_m_sim (Rel e require col_values) (BadSt col_values)
+              (g_body (oenv_of e) require col_values (o_update o) (o_add o) (o_on_many o) (rak_ e require) t)
+              (loop_body e t o require (add_keys_ e require) col_values)
+              (BadSt_mono e t o require col_values Hbad) (seq 0 len) s0 st0
+              (fun x s s' _ HR => body_step e t o require col_values Hrq Hcv Hbad x s s' HR) R0)
+    as [[sN [E HR]]|[E HB]];
+    (match goal with |- rbind ?m _ = _ =>
+       replace m with (for_m (seq 0 len) s0
+                         (g_body (oenv_of e) require col_values (o_update o) (o_add o) (o_on_many o) (rak_ e require) t))
+         by reflexivity end);
+    rewrite E; cbn [rbind].
+  - rewrite (finish_eq e t require col_values sN _ HR). reflexivity.
+  - destruct HB as [Hid Hne].
+    destruct (forallb (fun p => writable e (fst p)) col_values) eqn:HW.
+    + exfalso. apply (W_no_id e col_values HW). exact Hid.
+    + match goal with |- Err EEnv = if ?c then _ else _ => replace c with true; [reflexivity|] end.
+      assert (Hn : forall l : list upd, l <> [] -> negb (isnil l) = true) by (intros [|? ?] H; [contradiction|reflexivity]).
+      unfold st0 in Hne. symmetry. rewrite (Hn _ Hne). rewrite orb_true_r. reflexivity.
+Qed.
+
+Lemma single_kv_keys : forall d : cells, map fst (single_kv d) = map fst d.
+Proof. intros. unfold single_kv. rewrite map_map. reflexivity. Qed.
+
+Theorem mirror_single_is_model : forall e t require col_values o,
+  wf_dict require -> wf_dict col_values ->
+  cm_upsert_single (oenv_of e) t require col_values o = upsert_single e t require col_values o.
+Proof.
+  intros e t require col_values o Hrq Hcv. unfold cm_upsert_single, upsert_single. rewrite !negb_involutive.
+  destruct (isnil require && isnil col_values); [reflexivity|].
+  rewrite mirror_is_model by (unfold wf_dict; rewrite single_kv_keys; assumption).
+  destruct (upsert e t (single_kv require) (single_kv col_values) o) as [[t' r]|x]; [|reflexivity]. cbn [rbind].
+  destruct (r_record_ids r) as [|ids rest]; [reflexivity|]. cbn [length Nat.eqb orb nth].
+  destruct (r_update_ids r); [|reflexivity]. destruct (r_add_ids r); reflexivity.
+Qed.
+
+(* ================= the theorems about the regenerated code ================= *)
+Theorem gen_refines_reference : forall e t require col_values o,
+  wf_dict require -> wf_dict col_values ->
+  gen_upsert (oenv_of e) t require col_values o = ref_upsert e t require col_values o.
+Proof. intros. rewrite gen_upsert_is_mirror, mirror_is_model by assumption. apply upsert_eq. Qed.
+
+Theorem gen_single_refines_reference : forall e t require col_values o,
+  wf_dict require -> wf_dict col_values ->
+  gen_upsert_single (oenv_of e) t require col_values o = ref_single e t require col_values o.
+Proof. intros. rewrite gen_upsert_single_is_mirror, mirror_single_is_model by assumption. apply single_eq. Qed.
+
+Theorem gen_arg_errors_reject : forall e t require col_values o x,
+  wf_dict require -> wf_dict col_values ->
+  arg_error require col_values o = Some x ->
+  gen_upsert (oenv_of e) t require col_values o = Err x /\
+  table_after t (gen_upsert (oenv_of e) t require col_values o) = t.
+Proof.
+  intros e t require col_values o x Hrq Hcv H.
+  rewrite gen_upsert_is_mirror, mirror_is_model by assumption. apply arg_error_rejects. exact H.
 Qed.
